@@ -64,6 +64,17 @@ func lemma_prefixPreserved(r *Rule, s string) {
 //@ func Rule.Inflected
 //@   props C20
 //@   trusted
+//@   pure
+//@   requires spec_wellFormed(r)
+//@   ensures result == r.inflected(s)
+
+//@ func Inflector.Inflected
+//@   props C20
+//@   pure
+//@   requires i != nil && (forall t RuleType :: has(i.rules, t) ==> i.rules[t] != nil && spec_wellFormed(i.rules[t]))
+//@   ensures has(i.rules, tye) ==> result == i.rules[tye].inflected(s)
+//@   ensures !has(i.rules, tye) ==> result == s
+//@   note the dispatcher hands the input to the rule UNCHANGED (no trimming, no case folding): whatever precedes the last word reaches inflected() and is preserved by it (lemma_prefixPreserved)
 //@   note memoisation through sync.Map.LoadOrStore of sync.OnceValue closures: assumed to return what the stored closure computes, i.e. r.inflected(s); data-race freedom for all schedules is outside this family (not decided)
 
 // ---- govc prelude: ghost helpers of the clause language (identical in every contracts_verif.go) ----
